@@ -28,7 +28,7 @@ BOOL = [False, True]
 SCOPE = list(L.SearchScope)
 DEREF = list(L.DereferencingPolicy)
 _NAMED_CODES = sorted({int(c) for c in L.LDAPResultCode.__members__.values()})
-RESULTCODE_VALUES = _NAMED_CODES + [9, 15, 22, 81, 4096, 2**31 - 1, -1]
+RESULTCODE_VALUES = _NAMED_CODES + [9, 15, 22, 81, 127, 128, 255, 256, 32767, 32768, 65535, 4096, 2**31 - 1, -1, -129]
 
 
 def OPT(d: t.List[t.Any]) -> t.List[t.Any]:
